@@ -241,6 +241,9 @@ func docVariants(v Val) []Req {
 		r.Trail = tl
 		rs = append(rs, r)
 	}
+	cs := okReq("len", v)
+	cs.CT = "application/json; charset=utf-8"
+	rs = append(rs, cs)
 	w := okReq("len", v)
 	w.Wire = true
 	w2 := okReq("chunked", v)
@@ -965,16 +968,44 @@ func genRandom(c *drv.Ctx, ncases, nreqs int) {
 	}
 }
 
+// the body next to a required query parameter: a refusal of either keeps the handler from running
+func genWithQuery(c *drv.Ctx) {
+	for _, s := range []*Schema{sObj(P("a", sTy("integer"))).req("a"), {Ty: "array", Items: sTy("string"), MinI: ip(1)}, {Ty: "string", MinL: ip(2)}} {
+		for _, required := range []bool{false, true} {
+			for _, hasDef := range []bool{false, true} {
+				d := Decl{Name: "b", Required: required, HasDef: hasDef, Schema: s, Q: true}
+				if hasDef {
+					d.Def = sample(s)
+				}
+				base := append(presenceReqs()[:3], Req{Tr: "len", Syn: "ws", Raw: " ", V: Null(), Style: "compact"},
+					Req{Tr: "len", Syn: "bad", Raw: "{]", V: Null(), Style: "compact"})
+				for _, v := range []Val{Obj(), Obj(F("a", Int(1))), Obj(F("a", Str("x"))), Arr(), Arr(Str("ab")), Arr(Int(1)), Str("ab"), Str("a"), Null(), Int(3)} {
+					base = append(base, okReq("len", v), okReq("chunked", v))
+				}
+				rs := []Req{}
+				for _, q := range []string{"ok", "bad", ""} {
+					for _, r := range base {
+						r.Q = q
+						rs = append(rs, r)
+					}
+				}
+				emit(c, d, rs)
+			}
+		}
+	}
+}
+
 func generate(c *drv.Ctx) {
 	thorough := c.Tier == "thorough"
 	genLogic(c)
+	genWithQuery(c)
 	genKeywords(c)
 	genArrays(c, thorough)
 	genObjects(c, thorough)
 	genRich(c, thorough)
 	if thorough {
-		genRandom(c, 4000, 40)
+		genRandom(c, 8000, 40)
 	} else {
-		genRandom(c, 300, 25)
+		genRandom(c, 500, 25)
 	}
 }
